@@ -5,9 +5,9 @@ open Otel Otel.Wire Otel.C01
 
 /-! Line kinds
 `sched <gen> <cap> <maxB> <blocking> | <op> <op> … => <obs> <obs> …`   one observation per op
-   ops: `e<id>` `g+` `g-` `gt` (exporter returns when its context is done: export timeout) `f<fid>` `s`; leg `park` (build tag verif) adds `p<id>`/`r<id>` (OnEnd parked after its stopped check /
+   ops: `e<id>` `u<id>` (OnEnd of an unsampled span) `g+` `g-` `gt` (exporter returns when its context is done: export timeout) `f<fid>` `s`; leg `park` (build tag verif) adds `p<id>`/`r<id>` (OnEnd parked after its stopped check /
         released), `fp<fid>`/`fr<fid>` (ForceFlush likewise), `sp`/`sr` (Shutdown parked after storing stopped / released)
-   obs: `L=<b1/b2/…>;X=<0|1>;F=<fid>:<p|o|e>,…;S=<n|p|o>;D=<dropped>;Q=<len(queue)>;E=<ids whose OnEnd returned>`
+   obs: `L=<b1/b2/…>;X=<0|1>;F=<fid>:<p|o|e>,…;S=<n | one of p|o|e per Shutdown call, in call order>;D=<dropped>;Q=<len(queue)>;E=<ids whose OnEnd returned>`
         batches/ids as dot-separated lists, `-` when empty; `H` = number of exporter Shutdown calls so far
 `hist <gen> <cap> <maxB> <blocking> <dropped> | <ev> <ev> … => -`      free-running history (oracle only)
    evs: `E<id>` `U<id>` `XS:<ids>` `XE` `FC<fid>` `FR<fid>+|-` `SC` `SR+|-` `DS` `DE`
@@ -28,6 +28,7 @@ def parseOp (t : String) : Option Op :=
   else if t.startsWith "fp" then (dropS t 2).toNat?.map .parkFF
   else if t.startsWith "fr" then (dropS t 2).toNat?.map .releaseFF
   else if t.startsWith "e" then (dropS t 1).toNat?.map .end_
+  else if t.startsWith "u" then (dropS t 1).toNat?.map .endU
   else if t.startsWith "f" then (dropS t 1).toNat?.map .ff
   else if t.startsWith "p" then (dropS t 1).toNat?.map .parkEnd
   else if t.startsWith "r" then (dropS t 1).toNat?.map .releaseEnd
@@ -47,7 +48,9 @@ def obsOf (s : St) : String :=
   let l := if s.exported.isEmpty then "-" else "/".intercalate (s.exported.map dotList)
   let fs := (s.ffs.map fun f => (f.fid, phChar f.ph)).foldr insertSorted []
   let f := if fs.isEmpty then "-" else ",".intercalate (fs.map fun (a, b) => s!"{a}:{b}")
-  let sd := if s.sdRetOk then "o" else if s.sd = .none then "n" else "p"
+  -- one character per Shutdown call in call order: the call that won `stopOnce`, then the ones waiting in `Once.Do`
+  let sd := if s.sd = .none then "n" else
+    (if s.sdRetOk then "o" else "p") ++ String.join (s.sds.reverse.map fun c => if c.ret then "o" else "p")
   let ended := (s.seen.foldr (fun x acc => insertSorted (x, "") acc) []).map (·.1)
   s!"L={l};X={if s.busy.isSome then 1 else 0};F={f};S={sd};D={s.droppedIds.length};Q={s.queue.length};E={dotList ended};H={if s.sd = .shut then 1 else 0}"
 
@@ -75,11 +78,14 @@ def parseFF (s : String) : List (Nat × String) :=
     | [a, b] => a.toNat?.map (·, b)
     | _ => none
 
+/-- the ids of the unsampled spans of a script -/
+def scriptUnsampled (ops : List Op) : List Nat := ops.filterMap fun | .endU id => some id | _ => none
+
 /-- Spec oracle on the observations of a controlled schedule: S1, S2 on every log; S5 at the first
 observation in which a ForceFlush / Shutdown shows as returned nil; F22 classification. -/
 def schedOracle (maxB : Nat) (blocking : Bool) (ops : List Op) (obs : List String) : List String × Bool :=
-  let rec go (ops : List Op) (obs : List String) (prevE : List Nat) (ffPre : List (Nat × List Nat))
-      (sdPre : Option (List Nat)) (doneFF : List Nat) (sdDone : Bool) (bad : List String) (f22 : Bool) :
+  let rec go (allU : List Nat) (ops : List Op) (obs : List String) (prevE : List Nat) (ffPre : List (Nat × List Nat))
+      (sdPre : Option (List Nat)) (doneFF : List Nat) (sdDone : Nat) (bad : List String) (f22 : Bool) :
       List String × Bool :=
     match ops, obs with
     | op :: ops', o :: obs' =>
@@ -92,6 +98,7 @@ def schedOracle (maxB : Nat) (blocking : Bool) (ops : List Op) (obs : List Strin
       let bad := if expSd ≥ 1 && inX then "S3:exporter-shutdown-during-export" :: bad else bad
       let bad := if Spec.noDuplicate batches then bad else "S1" :: bad
       let bad := if Spec.batchBound maxB batches then bad else "S2" :: bad
+      let bad := if Spec.unsampledNotExported batches allU then bad else "S6:unsampled-exported" :: bad
       let bad := if Spec.onlyEnded batches (ended ++ (ops.filterMap fun | .end_ id => some id | .parkEnd id => some id | _ => none) ++ prevE) then bad else "S6" :: bad
       let ffPre := match op with | .ff fid => (fid, prevE) :: ffPre | .parkFF fid => (fid, prevE) :: ffPre | _ => ffPre
       let sdPre := match op, sdPre with | .sd, none => some prevE | .parkSd, none => some prevE | _, p => p
@@ -104,17 +111,23 @@ def schedOracle (maxB : Nat) (blocking : Bool) (ops : List Op) (obs : List Strin
           if Spec.delivered blocking pre batches dropped then acc
           else if sdPre.isSome then (acc.1, true) else ("S5:forceflush" :: acc.1, acc.2)) (bad, f22)
       let doneFF := doneFF ++ newly.map (·.1)
-      let sdNow := (field o "S") == some "o"
-      let bad := if sdNow && !sdDone then
-          (if Spec.delivered blocking (sdPre.getD []) batches dropped then bad else "S5:shutdown" :: bad)
+      -- number of Shutdown calls that have returned nil; every new return is judged (S5 with the spans ended
+      -- before the first Shutdown call: later calls owe the same, see `bsp_shutdown_delivers`)
+      let sdField := (field o "S").getD "n"
+      let sdOk := (sdField.toList.filter (· == 'o')).length
+      let sdNow := sdOk ≥ 1
+      let bad := if sdField.toList.any (· == 'e') then "shutdown-error" :: bad else bad
+      let bad := if sdOk > sdDone then
+          (if inX then "S3:shutdown-returned-during-export" :: bad else bad) ++
+          (if Spec.delivered blocking (sdPre.getD []) batches dropped then [] else ["S5:shutdown"])
         else bad
       -- S4: after Shutdown returned the log must not grow: checked by comparing with the next observation
       let bad := match obs' with
         | o2 :: _ => if (sdNow || expSd ≥ 1) && (field o2 "L") != (field o "L") then "S4" :: bad else bad
         | [] => bad
-      go ops' obs' ended ffPre sdPre doneFF (sdDone || sdNow) bad f22
+      go allU ops' obs' ended ffPre sdPre doneFF (max sdDone sdOk) bad f22
     | _, _ => (bad, f22)
-  go ops obs [] [] none [] false [] false
+  go (scriptUnsampled ops) ops obs [] [] none [] 0 [] false
 
 def parseEv (t : String) : Option Spec.Ev :=
   if t == "XE" then some .exportEnd
@@ -157,6 +170,9 @@ def stepLine (_ : Unit) (toks : List String) : Unit × Option Verdict :=
         (if final.ffs.any (·.ph == .retEarly) then ["ff-early"] else []) ++
         (if final.ffs.any (·.ph == .retErr) then ["ff-err"] else []) ++
         (if final.sdRetOk then ["sd-ok"] else []) ++
+        (if final.sds.isEmpty then [] else ["sd-multi"]) ++
+        (if final.sds.any (·.ret) then ["sd-late-ok"] else []) ++
+        (if final.unsampled.isEmpty then [] else ["unsampled"]) ++
         (if final.w == .exited then ["exited"] else []) ++
         (if vv != 0 then [s!"variant{vv}"] else [])
       ((), some { agree := agreeV.isSome, spec := spec ++ (if bad.isEmpty then "" else ":" ++ ",".intercalate bad),
